@@ -772,7 +772,7 @@ func main() {
 		"histories are sequential (C20 covers sharing); the identity value is never copied",
 		"every step of the history stage and every call of the shared-slice Unwrap stage runs under a watchdog: a call that stays silent for 20 s after it started (or after the passphrase callback returned) is reported as never-returned and its history abandoned; after 3 such reports the stage stops (the run cannot be 'held' then)",
 		"identities whose stored key is of an unsupported type (ECDSA P-256 / P-384) are built at start-up with ssh.MarshalPrivateKeyWithPassphrase from deterministic keys and a deterministic tape; DSA and sk- keys cannot be marshalled by x/crypto v0.24",
-		"near-tag stanzas (first argument close to but not the 6-character tag; classes a-i in tagvar.go): a locked identity must not ask; where the stanza is malformed for its own type (argument count, key share) a hard error is accepted in place of no-match; after a legitimate unlock the expected outcome is what the tree's own plain identity answers on that stanza list (Appendix B: unlocked = plain identity); arguments with white space or NUL cannot occur in a header and are run at the Unwrap level only",
+		"near-miss stanzas (tagvar.go): first argument close to but not the 6-character tag (classes a-i), or exactly the tag under a stanza TYPE that is a near miss of the key type (class t). None is addressed to the key: no prompt and no match, on a locked and on an unlocked identity alike. Only where a stanza of the identity's own type is malformed (argument count, key share) is a hard error accepted in place of no-match, and the unlocked outcome taken from the tree's own plain identity on that list; arguments with white space or NUL cannot occur in a header and are run at the Unwrap level only",
 		"multi-identity stage: one age.Decrypt per case over headers of 2..3 (thorough 4) distinct stanzas from {X25519, ssh-ed25519 x2, ssh-rsa x2, unknown} in every order and lists of 2..3 distinct identity kinds in every order, fresh identity values per case; an identity after the one that ends the call may or may not be consulted (at most one prompt, none without a stanza of its own); Unwrap-level sequences on one shared stanza slice compared with a deep snapshot, including two elements of spare capacity",
 		"CLI stage: one `age -d -i KEY -o out FILE` run per case on a pty (fresh process, so one step per identity); the identity's public key is the one embedded in an OpenSSH-format key file, else the sibling .pub; a no-match failure is recognised by the tool's message \"no identity matched\"",
 		"folded enumerations (quick length 3, thorough length 4) replace the four multi-stanza positions by one symbol whose position is fixed per (history, step) by a seed-independent hash; all four positions are separate symbols up to length 2 (quick) / 3 (thorough). Quick was reduced from the full alphabet at length 3 to stay within ~350 CPU-seconds",
